@@ -1025,6 +1025,11 @@ func (se *SpecEnv) callSpec(c *ast.CallExpr) Value {
 			pa, ok1 := a.(*PtrV)
 			pb, ok2 := b.(*PtrV)
 			if ok1 && ok2 {
+				if pa.Obj != nil && pb.Obj != nil && pa.Obj != pb.Obj && pa.Obj.URowOf != nil && pa.Obj.URowOf == pb.Obj.URowOf && pa.Obj.UVer == pb.Obj.UVer && samePath(pa.Path, pb.Path) {
+					// the pointees of two elements read from the same functional slice of pointers: the same pointee when
+					// the indices are equal
+					return F.Eq(pa.Obj.URowIdx, pb.Obj.URowIdx)
+				}
 				if pa.Obj != pb.Obj || len(pa.Path) != len(pb.Path) {
 					return F.False()
 				}
